@@ -175,7 +175,7 @@ def replay_conc(h, values, model=None, consts=None):
                         pass
         set_ctx(c)
         try:
-            h.fn(c)
+            _native(h, c)
         except Abort:
             pass
         return c.conc_results
@@ -225,6 +225,20 @@ def verify_harness(name, do_replay=True):
     return res
 
 
+def _native(h, c):
+    """run the harness natively with the library's global switch PRINT_EVENTS as one more input (model value in a replay,
+    random otherwise); whatever the library prints is discarded"""
+    import contextlib
+    import io
+    from qstrader import settings as _qs
+    _qs.PRINT_EVENTS = bool(c.bool('settings.PRINT_EVENTS'))
+    try:
+        with contextlib.redirect_stdout(io.StringIO()):
+            return h.fn(c)
+    finally:
+        _qs.PRINT_EVENTS = False
+
+
 def _wrap(h, c):
     def run(c):
         try:
@@ -271,19 +285,20 @@ def _replay_ob(h, ob, c):
 
 
 def random_conc(h, n, seed):
-    """bounded run-time check of the same contract: n random concrete inputs through the real code"""
+    """bounded run-time check of the same contract: random concrete inputs through the real code until n of them meet the
+    precondition (at most min(12n, n+6000) drawn - rejected draws cost nothing but the generator)"""
     rng = random.Random(seed)
     stats = {'tried': 0, 'accepted': 0, 'failures': [], 'clauses': {}}
     was = install._state['installed']
     install.uninstall()
     try:
-        for i in range(n):
+        while stats['accepted'] < n and stats['tried'] < min(12 * n, n + 6000):
             c = Ctx(h.name, h.props, mode='conc', values={}, rng=rng)
             c.model = c.model_consts = None
             set_ctx(c)
             stats['tried'] += 1
             try:
-                h.fn(c)
+                _native(h, c)
             except Reject:
                 continue
             except Abort:
